@@ -731,4 +731,5 @@ func runC07(c *Ctx) {
 	c07Gates(c)
 	c07WriteBoundary(c)
 	c07Inbound(c)
+	c07Flood(c)
 }
